@@ -188,3 +188,42 @@ func vfH_c10_encode() {
 	}
 	vfCover("done")
 }
+
+// H10-large: the same for results larger than any pooled buffer threshold: a string of vfLen2 bytes (one symbolic)
+// marshalled, followed by other large and small Marshal / Encode calls; the first result keeps its bytes and shares
+// memory with none of the later results.
+func vfH_c10_large() {
+	n := vfLen2
+	s := make([]byte, n)
+	for i := range s {
+		s[i] = 'a'
+	}
+	c := vfByte()
+	vfAssume(c >= 'a')
+	vfAssume(c <= 'z')
+	s[n/2] = c
+	r1, e1 := Marshal(string(s))
+	vfAssert(e1 == nil && len(r1) == n+2, "large-marshal-ok")
+	if e1 != nil || len(r1) != n+2 {
+		return
+	}
+	t := make([]byte, n+10)
+	for i := range t {
+		t[i] = '#'
+	}
+	r2, e2 := Marshal(string(t))
+	var sb vfSinkBuf
+	enc := NewEncoder(&sb)
+	e3 := enc.Encode(string(t[:n-5]))
+	r4, e4 := Marshal("~~")
+	vfAssert(e2 == nil && e3 == nil && e4 == nil, "later-calls-ok")
+	ok := r1[0] == '"' && r1[n+1] == '"' && r1[1+n/2] == c
+	for _, i := range []int{1, 2, n / 3, n - 1, n} {
+		ok = vfAnd(ok, r1[i] == 'a' || i == 1+n/2)
+	}
+	vfAssert(ok, "first-result-unchanged-by-later-calls")
+	vfAssert(!vfSameObj(r1, r2), "results-do-not-share-memory")
+	vfAssert(!vfSameObj(r1, sb.b), "result-does-not-share-memory-with-encoder-output")
+	vfAssert(!vfSameObj(r1, r4), "results-do-not-share-memory")
+	vfCover("done")
+}
